@@ -414,6 +414,10 @@ class MinFlowDecomp(pathmodel.AbstractPathModelDAG): # Note that we inherit from
         # flow leaving the sources; this is not the case if some edge carrying a flow value is ignored
         if any(self.G.has_edge(*e) and self.flow_attr in self.G.edges[e] for e in self.edges_to_ignore):
             return None
+        # ... and neither if a path can start on an edge without a flow value (an ignored edge leaving a source, a source node
+        # without the attribute in node mode): its weight is then missing from the flow leaving the sources
+        if any(self.flow_attr not in data for v in self.G.nodes() if self.G.in_degree(v) == 0 for _, _, data in self.G.out_edges(v, data=True)):
+            return None
 
         min_gen_set_start_time = time.perf_counter()
         all_weights = list(set({self.G.edges[e][self.flow_attr] for e in self.G.edges() if self.flow_attr in self.G.edges[e]}))
